@@ -1,6 +1,6 @@
 (* C15 -- bench reader and writer are faithful (line-AST level).  Statements only; proofs in Proofs/BenchProofs.v. *)
 From stdpp Require Import strings gmap sets.
-From CG Require Import Model.Bench Model.BenchSpec Model.Lint Proofs.BenchProofs Proofs.BenchRoundProofs Proofs.BenchReadProofs Proofs.BenchFinal Model.BenchScan Proofs.RegexProofs.
+From CG Require Import Model.Bench Model.BenchSpec Model.Lint Proofs.BenchProofs Proofs.BenchRoundProofs Proofs.BenchReadProofs Proofs.BenchFinal Model.BenchScan Proofs.RegexProofs Proofs.RegexSound.
 Open Scope string_scope.
 
 (* ---- obligations on the regenerated tables of io.py ---- *)
@@ -133,6 +133,16 @@ Theorem C15_stmt_dff : ∀ q d rest, ident q = true → ident d = true →
     ∧ BDff (text_of (group 1 cs)) (text_of (clean (group 3 cs))) = BDff q d.
 Proof. exact stmt_dff. Qed.
 Print Assumptions C15_stmt_dff.
+
+(* the regex model is sound for every pattern and text: what the matcher accepts is a prefix in the language of the pattern,
+   and every match findall reports is such a match at some position of the text *)
+Theorem C15_regex_sound : ∀ r s rest cs, match_here r s = Some (rest, cs) → ∃ u, s = (u ++ rest)%list ∧ lang r u.
+Proof. exact match_here_sound. Qed.
+Print Assumptions C15_regex_sound.
+Theorem C15_findall_sound : ∀ r s cs, cs ∈ findall r s →
+  ∃ pre t rest u, s = (pre ++ t)%list ∧ t = (u ++ rest)%list ∧ lang r u ∧ match_here r t = Some (rest, cs).
+Proof. exact findall_sound. Qed.
+Print Assumptions C15_findall_sound.
 
 (* FULL character-level statement for the canonical rendering: the four scans recover the line list.  Proved: the four
    statement theorems above (every statement is recognised where it starts and decoded correctly).  Missing: that no scan
